@@ -603,8 +603,9 @@ def judge_batch(ck, cases, res, stats, hist, clause_hist, ctx_seen, nontriv, sam
         if a["apanic"]:
             # the tree builder itself panicked (also with a sink that never panics): C04's subject
             stats["tree_builder_panics"] += 1
-            if stats["tree_builder_panics"] <= 3:
-                ck.notes.append("tree builder panic (C04's subject, case not judged here): %s on %s" % (
+            if stats["tree_builder_panics"] <= 2:
+                # fail closed: a parse that cannot be judged is no evidence for the property
+                note_broken(ck, "parse could not be judged because the tree builder panicked (C04's property): %s on %s" % (
                     a["trace"][:160], json.dumps(describe(case), ensure_ascii=True)[:300]))
             continue
         if "bad" in b:
